@@ -209,6 +209,11 @@ def instances(tier):
             kvs = [fam.pattern(d, m) for d, m in zip(degs3, ms)]
             out.append(inst('volume p%s m%s %s' % (degs3, ms, 'rat' if rational else 'nonrat'), h_volume, timeout=900,
                             degs=degs3, kvs=kvs, dim=3, rational=rational))
+    out.append(inst('volgrid p(1,2,1) w-interior-knot ss(2,2,3)', h_volume_grid, timeout=900, degs=(1, 2, 1),
+                    kvs=[fam.pattern(1, ()), fam.pattern(2, ()), fam.pattern(1, (1,))], dim=3, rational=False, ss=(2, 2, 3)))
+    out.append(inst('volgrid p(2,1,2) u-interior-knot ss(3,2,2)', h_volume_grid, timeout=900, degs=(2, 1, 2),
+                    kvs=[fam.pattern(2, (1,)), fam.pattern(1, (1,)), fam.pattern(2, ())], dim=3, rational=False, ss=(3, 2, 2)))
+    out.append(inst('surfgrid p1,2 v-interior ss3x2', h_surface_grid, timeout=600, pu=1, pv=2, kvu=fam.pattern(1, (1,)), kvv=fam.pattern(2, (1,)), dim=3, rational=False, ssu=3, ssv=2))
     out.append(inst('volgrid p(1,1,2) ss(2,3,2) rat', h_volume_grid, timeout=900, degs=(1, 1, 2),
                     kvs=[fam.pattern(1, ()), fam.pattern(1, (1,)), fam.pattern(2, ())], dim=3, rational=True, ss=(2, 3, 2)))
     return out
